@@ -288,9 +288,15 @@ def replay(ctx, rep):
             print("replay of this derivation is not supported; re-run the check with the recorded seed")
             return True
         o, strict, name = got
-        fs = CC.check_instance(o, name, strict, r, {}, [])
+        agg = {}
+        fs = CC.check_instance(o, name, strict, r, {}, [], agg)
         for f in fs:
             print("%s: %s" % (f.signature, f.what))
-        return not fs
+        bad = bool(fs)
+        for fld, a in sorted(agg.items()):
+            if a["dropped"] and not a["preserved"] and a["all6"]:
+                print("c01:field-dropped: %s.%s is not reproduced by decode(encode(x)) under any version" % (name, fld))
+                bad = True
+        return not bad
     print("unknown replay kind")
     return True
